@@ -249,6 +249,11 @@ example : splitCheck ⟨some (.outer [.fld 0, .fld 1]), [0], [0, 1, 2, 3], false
 example : splitCheck ⟨some (.fld 0), [0, 1], [0, 1, 2, 3], false, false, [], []⟩ = .error .value := rfl
 example : combinerValidation (toRPN (.fld 0)) [1] = .error .state := by decide
 example : submitCheck false true = .error .value := by decide
+/-- a second split on an already split task is rejected, also when the splitter is derived from the keyword arguments … -/
+example : splitCheck ⟨none, [0], [0, 1, 2, 3], true, false, [], []⟩ = .error .value := rfl
+example : splitCheck ⟨some (.fld 0), [0], [0, 1, 2, 3], true, false, [], []⟩ = .error .value := rfl
+/-- … unless `overwrite=True`, in which case the new splitter (here `list(kwargs)`) replaces the old one -/
+example : ∃ s, splitCheck ⟨none, [1, 0], [0, 1, 2, 3], true, true, [], []⟩ = .ok s ∧ toRPN s = [.f 1, .f 0, .star] := ⟨_, rfl, rfl⟩
 /-- … and a well-formed request is accepted (non-vacuity of the "accepted" side) -/
 example : ∃ s, splitCheck ⟨some (.inner [.fld 0, .fld 1]), [1, 0], [0, 1, 2, 3], false, false, [], []⟩ = .ok s := ⟨_, rfl⟩
 
